@@ -4,14 +4,6 @@
 import Rva.Model.Available
 namespace Rva
 
-def ecallSignature (n : CNode) : Option (RegSet × RegSet) :=
-  match knownEcall n with
-  | some c =>
-    match Gen.ecallTable.find? (fun row => row.1 == c.toInt) with
-    | some (_, ins, outs) => some (RegSet.ofList ins, RegSet.ofList outs)
-    | none => none
-  | none => none
-
 def unionOver (l : List RegSet) : RegSet := l.foldl (· ||| ·) 0#32
 
 /-- `reduce(&)` over the u_def of the visited predecessors; empty when there is none. -/
